@@ -9,7 +9,8 @@ BATCH = 1
 BATCH_TIMEOUT = 3000
 RULE = ("case = small configuration, one victim port (port 0) and 1..3 adversary ports running an adversarial stream class for "
         ">= 3*W cycles; oracle (bounded restatement): for every victim command, between offer and acceptance and between "
-        "acceptance and its data strobe, (i) no single other port had more than K = nbanks*(depth+2)+2 commands accepted, "
+        "acceptance and its data strobe, (i) no single other port had more than K = nbanks*(depth+2)+2+read_time+write_time "
+        "commands accepted, "
         "(ii) the wait is <= 2*W cycles, (iii) after all masters stop everything accepted completes within the drain bound; "
         "K and W depend only on the configuration; non-trivial iff the victim completed >=10 commands under contention or was "
         "still waiting at the end (itself the witness); distinct = distinct (config family, class, nports, depth)")
@@ -20,7 +21,7 @@ ASSUMPTIONS = [
 ]
 MIN_NONTRIVIAL = {"quick": 6, "thorough": 30}
 CLASSES = ["hammer-same-row", "writes-vs-reader", "hammer-alt-rows", "reads-vs-writer", "yielding", "many-ports-one-bank",
-           "round-robin-banks", "yielding"]
+           "round-robin-banks", "dir-stream-plus-rowmiss-w", "dir-stream-plus-rowmiss-r", "yielding"]
 LOCKOUT_CLASSES = ("hammer-same-row", "hammer-alt-rows", "many-ports-one-bank")
 
 
@@ -34,12 +35,14 @@ def bounds(timing, phy, cs, nbanks_total, nports):
     per = timing.tRP + timing.tRCD + max(timing.tRAS or 0, timing.tWR + wl) + cls_ + 4
     W = (Lr + nports * (depth + 2) * per + cs.get("read_time", 32) + cs.get("write_time", 16) + phy.read_latency
          + (timing.tWTR or 0) + wl)
-    K = nbanks_total * (depth + 2) + 2
+    # a stream of the other direction may legitimately run for read_time / write_time cycles (one command per cycle) before
+    # the multiplexer turns around
+    K = nbanks_total * (depth + 2) + 2 + cs.get("read_time", 32) + cs.get("write_time", 16)
     return K, W
 
 
 def cases(tier, seed):
-    n = 40 if tier == "quick" else 240
+    n = 50 if tier == "quick" else 300
     out = []
     for k in range(n):
         r = random.Random("C05/%d/%s/%d" % (seed, tier, k))
@@ -51,6 +54,9 @@ def cases(tier, seed):
         cs["refresh_postponing"] = r.choice([1, 2])
         cls = CLASSES[k % len(CLASSES)]
         nports = r.choice([2, 2, 3, 4]) if cls != "many-ports-one-bank" else r.choice([3, 4, 5])
+        if cls.startswith("dir-stream-plus-rowmiss"):
+            mem["bankbits"] = 2
+            nports = r.choice([3, 4])
         wl = {"class": cls, "nops": 100000, "victim_ops": 100000, "master_mode": "fifo", "hot_rows": 2, "hot_cols": 2,
               "wr_frac": r.choice([0.0, 0.5, 1.0]) if cls in LOCKOUT_CLASSES else 0.5, "we_style": "full"}
         cfg = dict(mem=mem, cs=cs, nports=nports, workload=wl, seed="C05/%d/%d" % (seed, k), trefi_override=r.randint(100, 140),
